@@ -9,6 +9,7 @@ import (
 	"fmt"
 	"os"
 	"path/filepath"
+	"runtime"
 	"sort"
 	"strconv"
 	"strings"
@@ -65,6 +66,8 @@ type Run struct {
 	// replay mode: `--replay <file>` re-runs the (deterministic) check and reports whether the
 	// violation class recorded in the file is reproduced
 	replayKey string
+	lastMem   time.Time
+	memOver   bool
 }
 
 type violation struct {
@@ -129,7 +132,38 @@ func (r *Run) TimeUp() bool {
 		r.Cap("internal deadline reached")
 		return true
 	}
+	// memory guard (the sandbox has no memory limit): checked at most once per second
+	r.mu.Lock()
+	due := time.Since(r.lastMem) > time.Second
+	if due {
+		r.lastMem = time.Now()
+	}
+	over := r.memOver
+	r.mu.Unlock()
+	if due {
+		var ms runtime.MemStats
+		runtime.ReadMemStats(&ms)
+		if ms.HeapAlloc > memLimit() {
+			r.mu.Lock()
+			r.memOver = true
+			r.mu.Unlock()
+			over = true
+		}
+	}
+	if over {
+		r.Cap("memory guard reached: exploration stopped early")
+		return true
+	}
 	return false
+}
+
+func memLimit() uint64 {
+	if v := os.Getenv("VERIF_MEM_GB"); v != "" {
+		if g, err := strconv.Atoi(v); err == nil && g > 0 {
+			return uint64(g) << 30
+		}
+	}
+	return 20 << 30
 }
 
 // Cap records that some bound/cap was hit so the run is not exhaustive.
